@@ -139,6 +139,19 @@ var sources = []source{
 	intSource[NUint16]("named-uint16", 16, false, true), intSource[NUint32]("named-uint32", 32, false, true),
 	intSource[NUint64]("named-uint64", 64, false, true),
 	f32Source[NFloat32]("named-float32", true), f64Source[NFloat64]("named-float64", true),
+	// two distinct named types that print alike (function-local types of the same name): a conversion must go by the type,
+	// not by what it is called
+	localUintSource(), localFloatSource(),
+}
+
+func localUintSource() source {
+	type Level uint64
+	return intSource[Level]("local-Level-uint64", 64, false, true)
+}
+
+func localFloatSource() source {
+	type Level float64
+	return f64Source[Level]("local-Level-float64", true)
 }
 
 func sourceByName(n string) *source {
